@@ -147,8 +147,10 @@ enum A {
     Close,
     Observe,
     TrySendOptNone,
+    /// clone one handle 70 times, observe, drop 69 of the clones (count thresholds)
+    CloneBurst,
 }
-const ALPHA: [(A, u32); 27] = [
+const ALPHA: [(A, u32); 28] = [
     (A::Send, 5),
     (A::SendTimeout0, 3),
     (A::SendOptTimeout0, 3),
@@ -176,6 +178,7 @@ const ALPHA: [(A, u32); 27] = [
     (A::Close, 1),
     (A::Observe, 5),
     (A::TrySendOptNone, 1),
+    (A::CloneBurst, 1),
 ];
 fn pick_a(b: u8) -> A {
     pick_a_masked(b, 0)
@@ -1028,6 +1031,40 @@ impl<const N: usize> World<N> {
                     self.flags.insert("cross_clone");
                 }
             }
+            A::CloneBurst => {
+                let Some(hi) = self.pick(None, b1) else { return };
+                self.trace.push(format!("CloneBurst(h{})", hi));
+                let mut burst: Vec<H<P<N>>> = Vec::new();
+                for j in 0..70 {
+                    let h = self.hs[hi].as_ref().unwrap();
+                    let cross = (j + b2 as usize) % 3 == 0;
+                    let n = match (h, cross) {
+                        (H::S(s), false) => H::S(Box::new((**s).clone())),
+                        (H::S(s), true) => H::AS(Box::new(s.clone_async())),
+                        (H::AS(s), false) => H::AS(Box::new((**s).clone())),
+                        (H::AS(s), true) => H::S(Box::new(s.clone_sync())),
+                        (H::R(r), false) => H::R(Box::new((**r).clone())),
+                        (H::R(r), true) => H::AR(Box::new(r.clone_async())),
+                        (H::AR(r), false) => H::AR(Box::new((**r).clone())),
+                        (H::AR(r), true) => H::R(Box::new(r.clone_sync())),
+                    };
+                    self.m.clone_side(n.is_send());
+                    burst.push(n);
+                }
+                self.observe(hi);
+                // keep one clone (so the burst also leaves a trace in the handle table), drop the rest
+                let keep = burst.pop().unwrap();
+                for h in burst {
+                    let side = h.is_send();
+                    self.m.drop_side(side);
+                    self.apply_woken();
+                    drop(h);
+                }
+                self.hs.push(Some(keep));
+                self.live_handles += 1;
+                self.observe(hi);
+                self.flags.insert("clone_burst");
+            }
             A::Convert => {
                 let Some(hi) = self.pick(None, b1) else { return };
                 self.trace.push(format!("Convert(h{})", hi));
@@ -1213,7 +1250,7 @@ fn run_world<const N: usize>(case: &SCase, caps: &[Option<usize>]) -> (World<N>,
         .collect();
     let mut w = World::<N> {
         hs,
-        futs: (0..4).map(|_| None).collect(),
+        futs: (0..8).map(|_| None).collect(),
         strm: None,
         m: Chan::new(cap, 1, 1),
         next_id: 0,
@@ -1229,7 +1266,7 @@ fn run_world<const N: usize>(case: &SCase, caps: &[Option<usize>]) -> (World<N>,
         viol: Vec::new(),
         live_handles: 2,
         in_queue_at_end: false,
-        mask: u32::from_le_bytes([case.cfg[3], case.cfg[4], case.cfg[5], case.cfg[6]]) & ((1 << 27) - 1),
+        mask: u32::from_le_bytes([case.cfg[3], case.cfg[4], case.cfg[5], case.cfg[6]]) & ((1 << 28) - 1),
     };
     let mut panicked = false;
     for op in case.ops.iter() {
@@ -1371,7 +1408,7 @@ pub fn run_case(prop: &str, case: &SCase, tier_caps: &[Option<usize>]) -> CaseOu
         "payload_bytes": if large { 24 } else if size_class == 1 { 8 } else { 4 },
         "history": trace,
         "flags": flags.iter().collect::<Vec<_>>(),
-        "swarm_mask": format!("{:07x}", u32::from_le_bytes([case.cfg[3], case.cfg[4], case.cfg[5], case.cfg[6]]) & ((1 << 27) - 1)),
+        "swarm_mask": format!("{:07x}", u32::from_le_bytes([case.cfg[3], case.cfg[4], case.cfg[5], case.cfg[6]]) & ((1 << 28) - 1)),
     });
     co
 }
@@ -1423,7 +1460,7 @@ impl Engine for SeqEng {
 
 pub fn rule_text(prop: &str) -> &'static str {
     match prop {
-        "C18" => "single-thread histories over the full API alphabet (27 call kinds incl. futures, stream, conversions, zero-duration timed calls, observers) executed in lock-step against the reference model on the unhooked crate; random histories up to 60-80 calls; non-trivial = a future/stream registered in the waiting list and then a cancel, close or disconnect happened; distinct = hash(capacity, constructor, payload size, executed call sequence)",
+        "C18" => "single-thread histories over the full API alphabet (28 call kinds incl. futures, stream, conversions, zero-duration timed calls, observers) executed in lock-step against the reference model on the unhooked crate; random histories up to 60-80 calls; non-trivial = a future/stream registered in the waiting list and then a cancel, close or disconnect happened; distinct = hash(capacity, constructor, payload size, executed call sequence)",
         "C16" => "single-thread poll scripts: every poll's result, every waker's wake count and every value checked against the model; non-trivial = history contains a spurious poll of a registered future, a waker change, or a second wait on one stream; distinct = hash(config, executed call sequence)",
         "C12" => "single-thread clone/convert/drop/close histories with observers compared to the model's handle counts after every call; non-trivial = a cross-flavour clone or conversion and a drop out of creation order; distinct = hash(config, executed call sequence)",
         _ => "",
